@@ -99,16 +99,35 @@ def dl_detour_scripts(rng, n):
         lit = lambda w: "(- %d)" % -w if w < 0 else "%d" % w
         edges = ["(assert (<= (- %s %s) %s))" % (cyc[j], cyc[(j + 1) % k], lit(ws[j])) for j in range(k)]
         extra = []
+        det_starts = []
         for dj in range(rng.randint(1, 3)):
             a = rng.randrange(k)
+            det_starts.append(a)
             b = (a + rng.randint(2, k - 1)) % k
             m = "d%d" % dj
             extra.append(m)
             edges.append("(assert (<= (- %s %s) %s))" % (cyc[a], m, lit(rng.randint(0, 2))))
             edges.append("(assert (<= (- %s %s) %s))" % (m, cyc[b], lit(rng.randint(2, 6))))
         rng.shuffle(edges)
-        lines = ["(set-option :produce-models true)", "(set-logic %s)" % logic] + ["(declare-fun %s () %s)" % (v, srt) for v in cyc + extra]
-        lines += edges + ["(check-sat)", "(get-model)"]
+        # the solver only notices an inconsistency when the closing edge is asserted after its negation became a consequence:
+        # usually put a cycle edge last, and the cycle edge ENTERING the start of a detour just before it (the consequence search
+        # started by that edge is the one that meets the join vertex over two paths)
+        if rng.random() < 0.8:
+            jlast = rng.randrange(k)
+            last = "(assert (<= (- %s %s) %s))" % (cyc[jlast], cyc[(jlast + 1) % k], lit(ws[jlast]))
+            edges.remove(last)
+            if rng.random() < 0.7 and det_starts:
+                a = rng.choice(det_starts)
+                pre = "(assert (<= (- %s %s) %s))" % (cyc[(a - 1) % k], cyc[a], lit(ws[(a - 1) % k]))
+                if pre in edges:
+                    edges.remove(pre)
+                    edges.append(pre)
+            edges.append(last)
+        # without model production in most cases: an accepted negative cycle makes the model computation diverge, which hides the
+        # wrong answer behind a timeout (then the oracles judge the sat answer)
+        wm = rng.random() < 0.35
+        lines = (["(set-option :produce-models true)"] if wm else []) + ["(set-logic %s)" % logic] + ["(declare-fun %s () %s)" % (v, srt) for v in cyc + extra]
+        lines += edges + ["(check-sat)"] + (["(get-model)"] if wm else [])
         out.append(("\n".join(lines) + "\n", logic))
     return out
 
